@@ -80,9 +80,12 @@ def protocol(entries):
         if g == "inc":
             evs = [e for e in st["-"] if e[0] in ATOMIC]
             rm = [e for e in evs if e[0] == "rmw"]
-            if len(rm) != 1 or rm[0][1] != 1:
-                raise Inexpressible("%s does not add exactly one to the count with one read-modify-write: %s" % (name, evs))
-            incs.setdefault(prog(evs), []).append(name)
+            # a straight line of +1 / -1 steps that adds one owner in total (e.g. clone, clone, release of a
+            # temporary): executed as it is; the model has no destruction branch inside it, so a decrement in it
+            # that turns out to be the last one shows up as a value never destroyed (ExactlyOnce)
+            if not rm or any(e[1] not in (1, -1) for e in rm) or sum(e[1] for e in rm) != 1:
+                raise Inexpressible("%s does not add exactly one to the count with a straight line of +1/-1 read-modify-writes: %s" % (name, evs))
+            incs.setdefault(prog(evs, decide=len(rm) == 1), []).append(name)
         elif g == "dec":
             sh = [e for e in st["shared"] if e[0] in ATOMIC]
             if any(e[0] in ("destroy", "free") for e in st["shared"]):
